@@ -143,16 +143,20 @@ func C03(c *Ctx) {
 	r.Check(len(bad) == 0 && nCalls >= 25, "C03-a", "A.pigeon.go:node-constructors-use-astPos", "", "pigeon.go", fmt.Sprintf("%d constructor calls in grammar actions, all positioned by c.astPos()", nCalls), strings.Join(bad, "; "))
 	ap := load.FuncDecl(root, "current", "astPos")
 	okPos := false
-	if ap != nil && len(ap.Body.List) == 1 {
-		if rs, ok := ap.Body.List[0].(*ast.ReturnStmt); ok && nospace(rs.Results[0]) == "ast.Pos{…}" {
-			if cl, ok := rs.Results[0].(*ast.CompositeLit); ok {
+	if ap != nil {
+		// the value returned on the only path, locals inlined: ast.Pos{Line: c.pos.line, Col: c.pos.col, Off: c.pos.offset}
+		rv := recvName(ap)
+		paths := c.pkgNorm("").normPaths(ap)
+		if len(paths) == 1 {
+			ret := lastReturn(paths[0])
+			if strings.HasPrefix(ret, "ast.Pos{") && strings.HasSuffix(ret, "}") {
 				m := map[string]string{}
-				for _, el := range cl.Elts {
-					if kv, ok := el.(*ast.KeyValueExpr); ok {
-						m[nospace(kv.Key)] = nospace(kv.Value)
+				for _, el := range splitTop(ret[len("ast.Pos{"):len(ret)-1], ",") {
+					if k := indexTop(el, ":"); k > 0 {
+						m[el[:k]] = el[k+1:]
 					}
 				}
-				okPos = m["Line"] == "c.pos.line" && m["Col"] == "c.pos.col" && m["Off"] == "c.pos.offset" && len(m) == 3
+				okPos = m["Line"] == rv+".pos.line" && m["Col"] == rv+".pos.col" && m["Off"] == rv+".pos.offset" && len(m) == 3
 			}
 		}
 	}
